@@ -107,6 +107,9 @@ fn gen_tok_pipeline(rng: &mut Rng, all_states: bool) -> Pipeline {
 }
 
 fn gen_input(rng: &mut Rng, thorough: bool) -> String {
+    if rng.chance(1, 250) {
+        return gen_html::gen_scale_input(rng);
+    }
     let size = pick_size(rng, thorough);
     gen_html(rng, size)
 }
@@ -375,11 +378,38 @@ impl HtmlWorld {
                 }
                 (input, gen_tree_pipeline(rng, true, true))
             },
-            HProp::C06 => (gen_input(rng, thorough), gen_tree_pipeline(rng, false, false)),
+            HProp::C06 => {
+                let mut input = gen_input(rng, thorough);
+                if rng.chance(1, 12) {
+                    // the body -> frameset replacement is where the skeleton is rebuilt
+                    let mut sc = String::new();
+                    gen_html::gen_frameset_scenario(rng, &mut sc);
+                    if rng.chance(1, 2) {
+                        input = sc + &input;
+                    } else {
+                        input = sc;
+                    }
+                }
+                if rng.chance(1, 20) {
+                    // option mirroring writes text into the tree on the sink's side
+                    let mut sc = String::new();
+                    gen_html::gen_select_scenario(rng, &mut sc);
+                    let at = rng.below(input.chars().count() + 1);
+                    let byte = input.char_indices().nth(at).map(|(b, _)| b).unwrap_or(input.len());
+                    input.insert_str(byte, &sc);
+                }
+                let p = if rng.chance(1, 5) { Pipeline::RcDom { context: None, ctx_scripting: false } } else { gen_tree_pipeline(rng, false, false) };
+                (input, p)
+            },
             HProp::C08 => {
                 let f = *rng.pick(FLIPS);
                 flip = Some(f.to_string());
-                let mut input = gen_input(rng, thorough);
+                let mut input = if matches!(f, "tb_exact_errors" | "exact_errors") && rng.chance(1, 30) {
+                    // exact error messages carry a dump of the offending token
+                    gen_html::gen_big_unexpected_token(rng)
+                } else {
+                    gen_input(rng, thorough)
+                };
                 if f == "discard_bom" && rng.chance(2, 3) && !input.starts_with('\u{feff}') {
                     input.insert(0, '\u{feff}');
                 }
@@ -393,7 +423,13 @@ impl HtmlWorld {
                 (input, p)
             },
             HProp::C09 => {
-                let input = if rng.chance(2, 3) { gen_linebreak_input(rng, thorough) } else { gen_input(rng, thorough) };
+                let input = if rng.chance(1, 80) {
+                    gen_html::gen_scale_input(rng)
+                } else if rng.chance(2, 3) {
+                    gen_linebreak_input(rng, thorough)
+                } else {
+                    gen_input(rng, thorough)
+                };
                 let p = if rng.chance(1, 2) { gen_tok_pipeline(rng, false) } else { gen_tree_pipeline(rng, true, false) };
                 (input, p)
             },
@@ -678,7 +714,10 @@ fn is_ws_text(s: &str) -> bool {
 }
 
 pub fn check_skeleton(sink: &ModelSink, allow_fmt_after_frameset: bool) -> Result<(), Violation> {
-    let dom = sink.dom.borrow();
+    check_skeleton_dom(&sink.dom.borrow(), allow_fmt_after_frameset)
+}
+
+pub fn check_skeleton_dom(dom: &crate::model::Dom, allow_fmt_after_frameset: bool) -> Result<(), Violation> {
     let bad = |m: String| Err(Violation::new("skeleton", m));
     // document children
     let mut doctype_seen = 0;
@@ -861,6 +900,30 @@ fn disguise(s: &str, undo: bool) -> String {
     out.into_iter().collect()
 }
 
+/// Map both spellings (`…arset` / `…arsex`, `…tp-equiv` / `…tp-equix`) to one, case-preserving.
+fn canon_disguise(s: &str) -> String {
+    let chars: Vec<char> = s.chars().collect();
+    let mut out = chars.clone();
+    for (stem, from, to) in [("arse", 't', 'x'), ("tp-equi", 'v', 'x')] {
+        let st: Vec<char> = stem.chars().collect();
+        let n = st.len();
+        if chars.len() <= n {
+            continue;
+        }
+        for i in 0..chars.len() - n {
+            if (0..n).all(|k| chars[i + k].to_ascii_lowercase() == st[k]) {
+                let c = chars[i + n];
+                if c == from {
+                    out[i + n] = to;
+                } else if c == from.to_ascii_uppercase() {
+                    out[i + n] = to.to_ascii_uppercase();
+                }
+            }
+        }
+    }
+    out.into_iter().collect()
+}
+
 struct ExpectedIndicator {
     tok_index: usize,
     label: String,
@@ -1006,7 +1069,30 @@ fn strip_doctype_line(nf: &str) -> String {
 impl HtmlWorld {
     fn run_checked(&self, case: &HtmlCase, flip: &Option<String>, stats: &mut Stats, digest: &mut u64, toggles: &[String]) -> Result<(), Violation> {
         let record = self.prop == HProp::C19;
-        let obs = run_html(case, record, false);
+        if self.prop == HProp::C08 {
+            return self.check_c08(case, flip, stats, digest);
+        }
+        crate::html_stream::KEEP_RC_TREE.with(|k| k.set(self.prop == HProp::C06));
+        let obs = if self.prop == HProp::C03 {
+            // a panic under this schedule only (the one-piece run of the same logical stream
+            // completes) is a chunking-dependent outcome; a panic in both is totality's business
+            match std::panic::catch_unwind(std::panic::AssertUnwindSafe(|| run_html(case, record, false))) {
+                Ok(o) => o,
+                Err(p) => {
+                    let mut plain = case.clone();
+                    plain.schedule.pauses.retain(|pa| pa.inject.is_none());
+                    let reference = std::panic::catch_unwind(std::panic::AssertUnwindSafe(|| run_html(&reference_case(&plain, &case.input), false, false)));
+                    let no_injection = case.schedule.pauses.iter().all(|pa| pa.inject.is_none());
+                    if reference.is_ok() && no_injection {
+                        return Err(Violation::new("outcome-differs-panic", format!("the scheduled run panics ({}) while the one-piece run completes", crate::world::panic_text(&p).chars().take(300).collect::<String>())));
+                    }
+                    std::panic::resume_unwind(p)
+                },
+            }
+        } else {
+            run_html(case, record, false)
+        };
+        crate::html_stream::KEEP_RC_TREE.with(|k| k.set(false));
         *digest = obs.digest;
         add_run_stats(stats, &obs);
         match self.prop {
@@ -1033,6 +1119,12 @@ impl HtmlWorld {
             },
             HProp::C04 => check_c04(&obs),
             HProp::C05 => check_c05(&obs),
+            HProp::C06 if obs.rc_tree.is_some() => {
+                // the repository's own sink: the same invariants on the finished RcDom tree
+                stats.inc("skeleton_checked_on_rcdom_tree");
+                check_skeleton_dom(obs.rc_tree.as_ref().unwrap(), toggles.iter().any(|t| t == "allow_formatting_elements_after_frameset"))
+                    .map_err(|v| Violation::new(&v.class, format!("RcDom: {}", v.detail)))
+            },
             HProp::C06 => {
                 // a truncated stream is still a complete parse of its prefix
                 check_skeleton(obs.sink.as_ref().unwrap(), toggles.iter().any(|t| t == "allow_formatting_elements_after_frameset"))
@@ -1079,8 +1171,11 @@ impl HtmlWorld {
                                 let ob = run_html(&b, false, false);
                                 stats.inc("probe_indicator_transparency_comparisons");
                                 if ob.stats.pauses_indicator == 0 {
-                                    let ta = tree_nf(&oa.sink).unwrap_or_default();
-                                    let tb = disguise(&tree_nf(&ob.sink).unwrap_or_default(), true);
+                                    // both trees are compared with the disguised letter canonicalised: the
+                                    // first character of the name may have been eaten by the markup
+                                    // before it (`&#xcharset` is U+000C followed by "harset")
+                                    let ta = canon_disguise(&tree_nf(&oa.sink).unwrap_or_default());
+                                    let tb = canon_disguise(&tree_nf(&ob.sink).unwrap_or_default());
                                     if ta != tb {
                                         return Err(Violation::new(
                                             "indicator-resumption-not-transparent",
@@ -1118,70 +1213,73 @@ impl HtmlWorld {
                     },
                 }
             },
-            HProp::C08 => {
-                let f = flip.clone().unwrap_or_else(|| "exact_errors".into());
-                let mut a = case.clone();
-                let mut b = case.clone();
-                match f.as_str() {
-                    "exact_errors" => {
-                        a.opts.exact_errors = false;
-                        b.opts.exact_errors = true;
-                    },
-                    "profile" => {
-                        a.opts.profile = false;
-                        b.opts.profile = true;
-                    },
-                    "tb_exact_errors" => {
-                        a.opts.tb_exact_errors = false;
-                        b.opts.tb_exact_errors = true;
-                    },
-                    "discard_bom" => {
-                        a.opts.discard_bom = false;
-                        b.opts.discard_bom = true;
-                        if let Some(rest) = case.input.strip_prefix('\u{feff}') {
-                            // run(true, x) == run(false, x without its leading U+FEFF), cuts shifted by one
-                            a.input = rest.to_string();
-                            a.schedule.cuts = case.schedule.cuts.iter().map(|c| c.saturating_sub(1)).collect();
-                        }
-                    },
-                    "drop_doctype" => {
-                        a.opts.drop_doctype = false;
-                        b.opts.drop_doctype = true;
-                    },
-                    _ => {},
-                }
-                let oa = run_html(&a, false, false);
-                let ob = run_html(&b, false, false);
-                add_run_stats(stats, &ob);
-                if f == "drop_doctype" {
-                    let (ta, tb) = (tree_nf(&oa.sink).unwrap_or_default(), tree_nf(&ob.sink).unwrap_or_default());
-                    if tb.lines().any(|l| l.trim_start().starts_with("<!DOCTYPE ")) {
-                        return Err(Violation::new("doctype-not-dropped", "drop_doctype=true but a doctype node is in the tree".into()));
-                    }
-                    if strip_doctype_line(&ta) != strip_doctype_line(&tb) {
-                        return Err(Violation::new("option-changes-tree", format!("flip drop_doctype: {}", first_line_diff(&strip_doctype_line(&ta), &strip_doctype_line(&tb)))));
-                    }
-                    let (rt, _) = normal_tokens(&oa.toks);
-                    let (ot, _) = normal_tokens(&ob.toks);
-                    if rt != ot {
-                        return Err(Violation::new("option-changes-tokens", format!("flip drop_doctype: {}", first_diff(&rt, &ot))));
-                    }
-                    return Ok(());
-                }
-                // pauses: offsets differ by one in the BOM case; compare kinds and token positions only
-                let cmp = compare_runs(&oa, &ob, false, false);
-                if let Err(v) = cmp {
-                    let class = if v.class == "tree-differs" { "option-changes-tree" } else { "option-changes-tokens" };
-                    return Err(Violation::new(class, format!("flip {}: {}", f, v.detail)));
-                }
-                let pa: Vec<_> = oa.pauses.iter().map(|p| (p.kind.clone(), p.nonchar_before, p.handle)).collect();
-                let pb: Vec<_> = ob.pauses.iter().map(|p| (p.kind.clone(), p.nonchar_before, p.handle)).collect();
-                if pa != pb {
-                    return Err(Violation::new("option-changes-pauses", format!("flip {}: {}", f, first_diff(&pa, &pb))));
-                }
-                Ok(())
-            },
+            HProp::C08 => unreachable!(),
         }
+    }
+
+    fn check_c08(&self, case: &HtmlCase, flip: &Option<String>, stats: &mut Stats, digest: &mut u64) -> Result<(), Violation> {
+        let f = flip.clone().unwrap_or_else(|| "exact_errors".into());
+        let mut a = case.clone();
+        let mut b = case.clone();
+        match f.as_str() {
+            "exact_errors" => {
+                a.opts.exact_errors = false;
+                b.opts.exact_errors = true;
+            },
+            "profile" => {
+                a.opts.profile = false;
+                b.opts.profile = true;
+            },
+            "tb_exact_errors" => {
+                a.opts.tb_exact_errors = false;
+                b.opts.tb_exact_errors = true;
+            },
+            "discard_bom" => {
+                a.opts.discard_bom = false;
+                b.opts.discard_bom = true;
+                if let Some(rest) = case.input.strip_prefix('\u{feff}') {
+                    // run(true, x) == run(false, x without its leading U+FEFF), cuts shifted by one
+                    a.input = rest.to_string();
+                    a.schedule.cuts = case.schedule.cuts.iter().map(|c| c.saturating_sub(1)).collect();
+                }
+            },
+            "drop_doctype" => {
+                a.opts.drop_doctype = false;
+                b.opts.drop_doctype = true;
+            },
+            _ => {},
+        }
+        let (oa, ob) = crate::world::run_pair(&format!("the run with {f}=false"), &format!("the run with {f}=true"), || run_html(&a, false, false), || run_html(&b, false, false))
+            .map_err(|v| Violation::new("option-changes-outcome", format!("flip {}: {}", f, v.detail)))?;
+        *digest = ob.digest;
+        add_run_stats(stats, &ob);
+        if f == "drop_doctype" {
+            let (ta, tb) = (tree_nf(&oa.sink).unwrap_or_default(), tree_nf(&ob.sink).unwrap_or_default());
+            if tb.lines().any(|l| l.trim_start().starts_with("<!DOCTYPE ")) {
+                return Err(Violation::new("doctype-not-dropped", "drop_doctype=true but a doctype node is in the tree".into()));
+            }
+            if strip_doctype_line(&ta) != strip_doctype_line(&tb) {
+                return Err(Violation::new("option-changes-tree", format!("flip drop_doctype: {}", first_line_diff(&strip_doctype_line(&ta), &strip_doctype_line(&tb)))));
+            }
+            let (rt, _) = normal_tokens(&oa.toks);
+            let (ot, _) = normal_tokens(&ob.toks);
+            if rt != ot {
+                return Err(Violation::new("option-changes-tokens", format!("flip drop_doctype: {}", first_diff(&rt, &ot))));
+            }
+            return Ok(());
+        }
+        // pauses: offsets differ by one in the BOM case; compare kinds and token positions only
+        let cmp = compare_runs(&oa, &ob, false, false);
+        if let Err(v) = cmp {
+            let class = if v.class == "tree-differs" { "option-changes-tree" } else { "option-changes-tokens" };
+            return Err(Violation::new(class, format!("flip {}: {}", f, v.detail)));
+        }
+        let pa: Vec<_> = oa.pauses.iter().map(|p| (p.kind.clone(), p.nonchar_before, p.handle)).collect();
+        let pb: Vec<_> = ob.pauses.iter().map(|p| (p.kind.clone(), p.nonchar_before, p.handle)).collect();
+        if pa != pb {
+            return Err(Violation::new("option-changes-pauses", format!("flip {}: {}", f, first_diff(&pa, &pb))));
+        }
+        Ok(())
     }
 
     fn parse(&self, v: &Value) -> (HtmlCase, Option<String>) {
